@@ -83,7 +83,7 @@ where
     ) -> Result<(), DbError> {
         let cost = self
             .handler
-            .process(index, self.current_path.elements.len() as u64 + 1)?;
+            .process(index, self.current_path.elements.len() as u64)?;
 
         if cost.0 != 0 && !self.visited.value(node_index.as_u64()) {
             path.elements.push((index, cost.1));
